@@ -427,3 +427,65 @@ def completions_from_wordlist(tree, rep, rule, rel="src/wormhole/_input.py", cls
               site(badr or fn, rel), key="%s:%s:wordlist-verbatim" % (rule, fname),
               what="%s.%s offers something other than the wordlist's completions of the typed prefix (edited, filtered or remembered): a completion "
                    "that does not extend the line, or a code no allocate_code() can produce, is submitted" % (cls, fname))
+
+
+# ---------------------------------------------------------------------------------------------------------------------------------
+# round 10 ("equivalent" API substitutions)
+
+def be4_codec_unsigned(tree, rep, rule, rel="src/wormhole/_dilation/encode.py"):
+    """sequence numbers and acks travel as 4-byte big-endian UNSIGNED integers in both directions: a signed decoder turns every seqnum
+    >= 2**31 into a negative number, which the watermark test drops as 'old' and the ack encoder refuses - nothing is delivered or retired
+    from then on (the instance of C12.R1 for the in-order / exactly-once argument)."""
+    from .astutil import const
+    tb, fb = tree.func(rel, None, "to_be4"), tree.func(rel, None, "from_be4")
+    structs = {k: const(v.args[0]) for k, v in tree.module_constants(rel).items()
+               if isinstance(v, ast.Call) and dotted(v.func) == "struct.Struct" and v.args}
+
+    def fmts(fn, meth):
+        out = [const(c.args[0]) for c in ast.walk(fn) if isinstance(c, ast.Call) and dotted(c.func) == "struct." + meth and c.args]
+        out += [structs[c.func.value.id] for c in ast.walk(fn) if isinstance(c, ast.Call) and isinstance(c.func, ast.Attribute)
+                and c.func.attr == meth and isinstance(c.func.value, ast.Name) and c.func.value.id in structs]
+        return out
+    fm1, fm2 = fmts(tb, "pack"), fmts(fb, "unpack")
+    if not fm1 or not fm2:
+        raise AnalysisError("to_be4 / from_be4: struct format not found")
+    ok = fm1 == fm2 and len(fm1) == 1 and fm1[0] in (">L", ">I", "!L", "!I")
+    rep.check(rule, "to_be4 / from_be4 use one unsigned 4-byte big-endian format (%s / %s)" % (fm1, fm2), ok, site(fb, rel), key="%s:be4-unsigned" % rule,
+              what="to_be4 packs %s, from_be4 unpacks %s: a sequence number with the top bit set comes back negative, is dropped as already seen and "
+                   "cannot be acknowledged" % (fm1, fm2))
+
+
+def no_hashing_of_peer_values(tree, rep, rule, sites_):
+    """a membership test of a peer-supplied value against a SET (literal, set()/frozenset() call, or a module constant bound to one) hashes
+    the value: a JSON list or object in that position raises TypeError where the list-membership test answered False.  `sites_` lists
+    (file, class or None, function) of the functions that handle peer hints; a test is accepted when the same function first checks
+    isinstance(<value>, str)."""
+    n = 0
+    bad = None
+    for rel, cls, fname in sites_:
+        fn = tree.func(rel, cls, fname)
+        consts = tree.module_constants(rel)
+
+        def is_set(e):
+            if isinstance(e, (ast.Set, ast.SetComp)):
+                return True
+            if isinstance(e, ast.Call) and dotted(e.func) in ("set", "frozenset"):
+                return True
+            if isinstance(e, ast.Name) and e.id in consts:
+                return is_set(consts[e.id])
+            return False
+        for c in ast.walk(fn):
+            if isinstance(c, ast.Compare) and len(c.ops) == 1 and isinstance(c.ops[0], (ast.In, ast.NotIn)):
+                n += 1
+                if is_set(c.comparators[0]) and not isinstance(c.left, ast.Constant):
+                    lname = c.left.id if isinstance(c.left, ast.Name) else None
+                    checked = lname is not None and any(
+                        isinstance(k, ast.Call) and dotted(k.func) == "isinstance" and len(k.args) == 2 and isinstance(k.args[0], ast.Name)
+                        and k.args[0].id == lname and dotted(k.args[1]) == "str" and k.lineno < c.lineno for k in ast.walk(fn))
+                    if not checked:
+                        bad = bad or (rel, fname, c)
+    rep.check(rule, "peer-hint handlers test membership of peer values against lists / tuples / dicts keyed by str only, never by hashing an unchecked "
+              "value into a set (%d membership tests in %d functions)" % (n, len(sites_)), bad is None, site(bad[2], bad[0]) if bad else sites_[0][0],
+              key="%s:no-hash-of-peer-value" % rule,
+              what="%s hashes a peer-supplied value (`%s`): a hint whose field is a JSON list or object raises TypeError inside the handler and the "
+                   "whole hints message - valid hints included - is lost" % (bad[1] if bad else "?", ast.unparse(bad[2])[:80] if bad else "?"))
